@@ -500,6 +500,7 @@ fn check(args: &[String]) -> i32 {
     let mut reported: Vec<Value> = Vec::new();
     let mut known_hits: Vec<String> = Vec::new();
     let mut unconfirmed = 0u64;
+    let mut unconfirmed_uncontrolled = 0u64;
     violations.sort_by_key(|v| v["orig_run_index"].as_u64().unwrap_or(0));
     for v in &violations {
         let fp = format!(
@@ -531,8 +532,17 @@ fn check(args: &[String]) -> i32 {
                 reported.push(r);
             }
             _ => {
-                unconfirmed += 1;
-                eprintln!("UNCONFIRMED violation {} did not reproduce from {} in a fresh process", fp, path);
+                let uncontrolled = v["trace"]["config"]["random_state"].as_bool().unwrap_or(false);
+                if uncontrolled {
+                    // RandomState is the one seam the simulator does not own (DESIGN 3.6): a
+                    // violation that does not replay is never reported
+                    unconfirmed_uncontrolled += 1;
+                    println!("INFO violation {} seen in an uncontrolled-hasher run did not replay in a fresh process; not reported", fp);
+                    let _ = std::fs::remove_file(&path);
+                } else {
+                    unconfirmed += 1;
+                    eprintln!("UNCONFIRMED violation {} did not reproduce from {} in a fresh process", fp, path);
+                }
             }
         }
     }
@@ -575,6 +585,7 @@ fn check(args: &[String]) -> i32 {
             "other_property_fingerprints_seen": other_fp,
             "known_findings_hit": known_hits,
             "unconfirmed": unconfirmed,
+            "unconfirmed_uncontrolled_hasher": unconfirmed_uncontrolled,
             "harness_errors": harness_errors,
             "real_components": ["everything under /repo/src (caches crate, feature verif-hooks) incl. hashbrown/std HashMap"],
             "stub_components": ["BuildHasher/Hasher (SimBuildHasher)", "KeyHasher (SimKeyHasher)", "eviction callback (SimCallback)", "global allocator (SimAlloc: poison, quarantine, liveness table)", "sketch clock (hook H4)", "key/value types (TK, SKey, TV: ledger-tracked)"],
